@@ -37,7 +37,7 @@ class Ty:
     # ---- WGSL layout (spec section 13.4)
     def align(self):
         k = self.kind
-        w = 8 if getattr(self, "s", "") == "f64" else 4
+        w = 8 if getattr(self, "s", "") == "f64" else (1 if getattr(self, "s", "") == "bool" else 4)
         if k in ("scalar", "atomic"):
             return w
         if k == "vec":
@@ -51,7 +51,7 @@ class Ty:
 
     def size(self):
         k = self.kind
-        w = 8 if getattr(self, "s", "") == "f64" else 4
+        w = 8 if getattr(self, "s", "") == "f64" else (1 if getattr(self, "s", "") == "bool" else 4)
         if k in ("scalar", "atomic"):
             return w
         if k == "vec":
@@ -104,7 +104,7 @@ class Ty:
 
 
 def prim(s):
-    return {"f32": "PF32", "i32": "PI32", "u32": "PU32", "f64": "PF64"}[s]
+    return {"f32": "PF32", "i32": "PI32", "u32": "PU32", "f64": "PF64", "bool": "PBool"}[s]
 
 
 FIELD_NAMES = ["position", "normal", "uv", "color", "weights", "indices", "m", "a", "b", "c", "d", "scale", "bias",
@@ -115,8 +115,9 @@ FIELD_NAMES = ["position", "normal", "uv", "color", "weights", "indices", "m", "
 
 class Gen:
     def __init__(self, rng, allow_f64=False, allow_rts=True, allow_atomic=True, square_mats_only=False, scalar_kinds=None,
-                 compat16=False):
+                 compat16=False, big_arrays=False):
         self.rng = rng
+        self.big_arrays = big_arrays
         self.compat16 = compat16      # only 16-byte-multiple leafs: the Rust layout equals the WGSL layout
         self.structs = []
         self.allow_f64 = allow_f64
@@ -153,7 +154,10 @@ class Gen:
             base = self.member_type(depth - 1, host) if depth > 0 and r.random() < 0.5 else self.leaf()
             if base.kind == "atomic" and r.random() < 0.5:
                 base = Ty("scalar", s="u32")
-            return Ty("array", elem=base, n=r.choice([1, 2, 3, 4, 5, 8]))
+            n = r.choice([1, 2, 3, 4, 5, 8])
+            if self.big_arrays and r.random() < 0.2:
+                n = r.choice([32, 33, 40, 64])      # serde / bytemuck stop at 32 elements: the derive lists must not depend on it
+            return Ty("array", elem=base, n=n)
         return self.leaf()
 
     def new_struct(self, name, depth=2, host=True, rts=False, nmembers=None):
@@ -191,6 +195,7 @@ def program(rng, **kw):
     """A module with host structs (used by globals of several address spaces), unused structs, function-local
     structs, vertex input structs, inter-stage structs, fragment outputs. Returns dict with wgsl + truth."""
     bias = kw.pop("roles_bias", False)      # make multi-role structs (result + host, vertex + host, ...) likely
+    allow_bool = kw.pop("allow_bool", False)  # structs with bool / vecN<bool> members (private / workgroup variables only)
     g = Gen(rng, **kw)
     lines, decls = [], []
     roles = {}   # struct name -> set of roles
@@ -245,6 +250,40 @@ def program(rng, **kw):
             globals_.append((sp, "g%d" % b, grid, b))
             used_by_global.append(grid)
         b += 1
+    # two structurally identical structs under different names, both nested in one host struct (or as the element of
+    # a trailing runtime-sized array): a field must name ITS struct
+    twins_rts = False
+    if rng.random() < (0.35 if not g.compat16 else 0.0):
+        nm = rng.randint(1, 3)
+        names = rng.sample(FIELD_NAMES, nm)
+        ms = [(names[k], g.leaf()) for k in range(nm)]
+        ms = [(n_, (Ty("scalar", s="u32") if t_.kind == "atomic" else t_)) for n_, t_ in ms]
+        ta = Ty("struct", name="TwinA", members=list(ms), has_rts=False)
+        tb = Ty("struct", name="TwinB", members=list(ms), has_rts=False)
+        wrap_ms = [("first", ta), ("second", tb), ("more", Ty("array", elem=tb, n=2))]
+        if rng.random() < 0.5:
+            wrap_ms.reverse()
+        use_rts = g.allow_rts and rng.random() < 0.4
+        if use_rts:
+            wrap_ms.append(("tail", Ty("rtarray", elem=rng.choice([ta, tb]))))
+        tw = Ty("struct", name="Twins", members=wrap_ms, has_rts=use_rts)
+        twins_rts = use_rts
+        grid_structs += [ta, tb, tw]
+        globals_.append(("storage_ro" if use_rts else rng.choice(["uniform", "storage_ro"]), "g%d" % b, tw, b))
+        used_by_global.append(tw)
+        b += 1
+    # bool members: only possible in private / workgroup variables
+    if allow_bool and rng.random() < 0.5:
+        ms = [("enabled", Ty("scalar", s="bool")), ("level", Ty("scalar", s="u32"))]
+        if rng.random() < 0.6:
+            ms.insert(rng.randrange(3), ("mask", Ty("vec", n=rng.choice([2, 3, 4]), s="bool")))
+        if rng.random() < 0.4:
+            ms.append(("history", Ty("array", elem=Ty("scalar", s="bool"), n=3)))
+        fl = Ty("struct", name="Flags", members=ms, has_rts=False)
+        grid_structs.append(fl)
+        globals_.append((rng.choice(["private", "workgroup"]), "g%d" % b, fl, b))
+        used_by_global.append(fl)
+        b += 1
     # vertex inputs / interstage / fragment outputs
     vin, inter, fout = [], None, None
     io_lines = []
@@ -263,6 +302,12 @@ def program(rng, **kw):
         ms = [("clip", Ty("vec", n=4, s="f32")), ("uv", Ty("vec", n=2, s="f32"))]
         inter = Ty("struct", name="Inter", members=ms, has_rts=False)
         io_lines.append("struct Inter {\n  @builtin(position) clip: vec4<f32>,\n  @location(0) uv: vec2<f32>,\n}")
+    ids_struct = None
+    if nentry and rng.random() < 0.3:
+        # a struct parameter made of builtins only: it must be emitted (with no fields)
+        ids_struct = Ty("struct", name="DrawIds", members=[("vi", Ty("scalar", s="u32")), ("ii", Ty("scalar", s="u32"))],
+                        has_rts=False, builtins={"vi", "ii"})
+        io_lines.append("struct DrawIds {\n  @builtin(vertex_index) vi: u32,\n  @builtin(instance_index) ii: u32,\n}")
     shared_host_vertex = None
     if nentry and host_structs and rng.random() < (0.5 if bias else 0.3):
         # a host struct that is ALSO a vertex input is only possible when its members are valid io types: make a fresh one
@@ -320,6 +365,8 @@ def program(rng, **kw):
         params = ["in%d: %s" % (i, s.name) for i, s in enumerate(vin)]
         if shared_host_vertex is not None:
             params.append("both: Both")
+        if ids_struct is not None:
+            params.insert(rng.randrange(len(params) + 1), "ids: DrawIds")
         ret = "Inter" if inter else "@builtin(position) vec4<f32>"
         retv = "var o: Inter; return o;" if inter else "return vec4<f32>(0.0);"
         lines.append("@vertex fn vs_main(%s) -> %s { %s %s }" % (", ".join(params), ret, body_local, retv))
@@ -327,9 +374,13 @@ def program(rng, **kw):
     if nentry >= 2:
         p = "i: Inter" if inter else ""
         if fout:
-            lines.append("@fragment fn fs_main(%s) -> FOut { var o: FOut; return o; }" % p)
+            fs = "@fragment fn fs_main(%s) -> FOut { var o: FOut; return o; }" % p
         else:
-            lines.append("@fragment fn fs_main(%s) -> @location(0) vec4<f32> { return vec4<f32>(0.0); }" % p)
+            fs = "@fragment fn fs_main(%s) -> @location(0) vec4<f32> { return vec4<f32>(0.0); }" % p
+        if rng.random() < 0.4:
+            lines.insert(len(lines) - 1, fs)      # the consuming entry point declared BEFORE the producing one
+        else:
+            lines.append(fs)
         entries.append("fs_main")
     if nentry == 0 or rng.random() < 0.3:
         lines.append("@compute @workgroup_size(1) fn cs_main() { %s }" % body_local)
@@ -346,17 +397,21 @@ def program(rng, **kw):
         all_structs[s.name] = s
     if shared_host_vertex:
         all_structs["Both"] = shared_host_vertex
+    if ids_struct:
+        all_structs["DrawIds"] = ids_struct
     emitted = set(host)
     if nentry >= 1:
         emitted |= {s.name for s in vin}
         if shared_host_vertex:
             emitted.add("Both")
+        if ids_struct:
+            emitted.add("DrawIds")
     # Inter: entry argument of fs_main but also the result of vs_main -> not emitted; FOut: result only
     for s in grid_structs:
         all_structs[s.name] = s
     order = [s.name for s in host_structs] + ([rts_struct.name] if rts_struct else []) + [s.name for s in grid_structs] \
         + [s.name for s in vin] \
-        + (["Inter"] if inter else []) + (["Both"] if shared_host_vertex else []) + (["FOut"] if fout else []) \
+        + (["Inter"] if inter else []) + (["DrawIds"] if ids_struct else []) + (["Both"] if shared_host_vertex else []) + (["FOut"] if fout else []) \
         + (["WrapsOut"] if "WrapsOut" in host else [])
     if fout:
         all_structs["FOut"] = fout
@@ -370,7 +425,7 @@ def program(rng, **kw):
             truth.append({"name": n, "host": n in host, "rts": bool(getattr(s, "has_rts", False)),
                           "size": s.size(), "offsets": [(mn, off) for mn, off in s.offsets() if mn not in bi],
                           "members": [(mn, mt.shape()) for mn, mt in s.members if mn not in bi]})
-    return {"wgsl": "\n".join(lines) + "\n", "truth": truth, "needs_encase": rts_struct is not None}
+    return {"wgsl": "\n".join(lines) + "\n", "truth": truth, "needs_encase": rts_struct is not None or twins_rts}
 
 
 def all_leafs(t):
